@@ -8,6 +8,7 @@ mod c08;
 mod c02;
 mod c04;
 mod c05;
+mod c06;
 mod c11;
 mod gen;
 mod dicts;
@@ -34,6 +35,7 @@ fn main() {
         "c05-replay" => c05::replay(rest),
         "c05-record" => c05::record(rest),
         "c11-record" => c11::record(rest),
+        "c06-run" => c06::run(rest),
         other => {
             eprintln!("unknown subcommand {}", other);
             2
